@@ -76,6 +76,9 @@ static void redirect(uint32_t t, uint64_t v) {
 HARNESS(harness_ptr_restore_0) { PTR_RESTORE(0) }
 HARNESS(harness_ptr_restore_7) { PTR_RESTORE(7) }
 HARNESS(harness_ptr_restore_29) { PTR_RESTORE(29) }
+HARNESS(harness_ptr_restore_1) { PTR_RESTORE(1) }
+HARNESS(harness_ptr_restore_16) { PTR_RESTORE(16) }
+HARNESS(harness_ptr_restore_28) { PTR_RESTORE(28) }
 /* N redirections in one test: the limit */
 #define PTR_LIMIT(N) \
   h_init(); \
@@ -92,6 +95,9 @@ HARNESS(harness_ptr_limit_31) { PTR_LIMIT(31) }
 HARNESS(harness_ptr_limit_32) { PTR_LIMIT(32) }
 HARNESS(harness_ptr_limit_33) { PTR_LIMIT(33) }
 HARNESS(harness_ptr_limit_35) { PTR_LIMIT(35) }
+HARNESS(harness_ptr_limit_0) { PTR_LIMIT(0) }
+HARNESS(harness_ptr_limit_1) { PTR_LIMIT(1) }
+HARNESS(harness_ptr_limit_34) { PTR_LIMIT(34) }
 /* consecutive tests: after a first test with N1 redirections the second test again has the whole limit */
 #define PTR_TWO_TESTS(N1) \
   h_init(); \
@@ -113,7 +119,7 @@ HARNESS(harness_ptr_two_tests_32) { PTR_TWO_TESTS(32) }
 
 /* ================================================================ H2: plugin chain */
 #define NP 4
-static const uint8_t NAMES[NP][2] = {"a", "b", "c", "d"};                /* the wrapper's plugin names */
+static const uint8_t NAMES[NP + 2][2] = {"a", "b", "c", "d", "z", ""};   /* the wrapper's plugin names; two names nobody has */
 #define LOGCAP 24
 static int32_t log_id[LOGCAP]; static uint32_t log_post[LOGCAP]; static uint32_t nlog, log_args = 3;
 void h_rec(uint32_t id, uint32_t post, uint32_t args_ok) {
@@ -128,15 +134,18 @@ static int model_find(int32_t id) { for (uint32_t k = 0; k < model_n; k++) if (m
 static void model_remove_at(uint32_t pos) { for (uint32_t k = pos; k + 1 < model_n; k++) model[k] = model[k + 1]; model_n--; }
 static int32_t name_to_id(const uint8_t* nm) { for (int32_t i = 0; i < NP; i++) if (nm[0] == NAMES[i][0] && nm[1] == 0) return i; return -1; }
 
+static int light;                      /* structural checks only (chain members, order, count): used where the removed name is symbolic */
 static void check_registry_chain(void) {
   CHECK((uint32_t)h_count() == model_n, "countPlugins == number of installed plugins");
   for (uint32_t k = 0; k < NP; k++) if (k < model_n) CHECK((int32_t)h_chain_id(k) == model[k], "the chain holds exactly the installed plugins, most recently installed first");
   CHECK((int32_t)h_chain_id(model_n) == TERMINATOR, "the chain ends at the null plugin right after the last installed plugin");
+  if (light) return;
   for (int32_t i = 0; i < NP; i++) CHECK((int32_t)h_get_by_name((uint8_t*)NAMES[i]) == (model_find(i) >= 0 ? i : NULLP), "getPluginByName finds exactly the plugins that are in the chain");
 }
 static void check_tp_chain(void) {
   for (uint32_t k = 0; k < NP; k++) if (k < model_n) CHECK((int32_t)h_tp_chain_id(k) == model[k], "the chain holds exactly the added plugins, most recently added first");
   CHECK((int32_t)h_tp_chain_id(model_n) == TERMINATOR, "the chain ends at the null plugin");
+  if (light) return;
   for (int32_t i = 0; i < NP; i++) CHECK((int32_t)h_tp_get((uint8_t*)NAMES[i]) == (model_find(i) >= 0 ? i : NULLP), "getPluginByName finds exactly the plugins that are in the chain");
 }
 /* the order log of one test: pre actions head first, post actions in the exact reverse, enabled plugins only */
@@ -181,90 +190,108 @@ HARNESS(harness_chain_order_1) { CHAIN_ORDER(1) }
 HARNESS(harness_chain_order_2) { CHAIN_ORDER(2) }
 HARNESS(harness_chain_order_3) { CHAIN_ORDER(3) }
 HARNESS(harness_chain_order_4) { CHAIN_ORDER(4) }
-/* TestRegistry::removePluginByName: name symbolic (one byte + NUL: any installed, any absent, the empty name) */
-#define REGISTRY_REMOVE(N) \
-  h_init(); \
-  IN_U32(rdis); IN_ARR_U8(rname, 2); \
-  rname[1] = 0; \
-  for (uint32_t i = 0; i < (N); i++) { h_install(i); model_install((int32_t)i); } \
-  apply_enable_pattern(rdis, 0); \
-  int32_t id = name_to_id(rname); \
-  int pos = id >= 0 ? model_find(id) : -1;                               /* 0 = head of the chain */ \
-  KF_EXCLUDE(pos); \
-  h_remove_by_name(rname); \
-  if (pos >= 0) model_remove_at((uint32_t)pos); \
-  check_registry_chain(); \
-  h_run_pre(); h_run_post(); \
-  check_log(); \
-  OBSERVE(pos); OBSERVE(nlog); \
-  if (pos == 0) WITNESS("removed the head"); \
-  if (pos == 1) WITNESS("removed the second"); \
-  if (pos < 0) WITNESS("name not in the chain"); \
-  WITNESS("end");
+/* remove-by-name.  MODE 1: the constant name NAMES[K] (K = 4, 5: "z" and the empty name, which nobody has);
+ * MODE 0 and 3: the name is any 1-byte string (any installed, any absent, the empty name) - MODE 0 with the
+ * structural checks only, MODE 3 (thorough tier) with by-name lookups and the order log of a test as well;
+ * MODE 2: any 1-byte string that no plugin in the chain has */
 #ifdef KF_C17_1
 #define KF_EXCLUDE(pos) ASSUME((pos) < 2)      /* known finding: a plugin at chain depth >= 3 is not removed */
 #else
 #define KF_EXCLUDE(pos) ((void)0)
 #endif
-HARNESS(harness_registry_remove_0) { REGISTRY_REMOVE(0) }
-HARNESS(harness_registry_remove_1) { REGISTRY_REMOVE(1) }
-HARNESS(harness_registry_remove_2) { REGISTRY_REMOVE(2) }
-HARNESS(harness_registry_remove_3) { REGISTRY_REMOVE(3) }
-HARNESS(harness_registry_remove_4) { REGISTRY_REMOVE(4) }
+#define REGISTRY_REMOVE(N, MODE, K) \
+  h_init(); \
+  IN_U32(rdis); IN_ARR_U8(rname, 2); \
+  rname[1] = 0; if ((MODE) == 1) rname[0] = NAMES[(K) % (NP + 2)][0]; \
+  for (uint32_t i = 0; i < (N); i++) { h_install(i); model_install((int32_t)i); } \
+  apply_enable_pattern(rdis, 0); \
+  int32_t id = name_to_id(rname); \
+  int pos = id >= 0 ? model_find(id) : -1;                               /* 0 = head of the chain */ \
+  if ((MODE) == 2) ASSUME(pos < 0); \
+  KF_EXCLUDE(pos); \
+  h_remove_by_name(rname); \
+  if (pos >= 0) model_remove_at((uint32_t)pos); \
+  light = (MODE) == 0; \
+  check_registry_chain(); \
+  if (!light) { h_run_pre(); h_run_post(); check_log(); } \
+  OBSERVE(pos); OBSERVE(nlog); \
+  if (pos == 0) WITNESS("removed the head"); \
+  if (pos == 1) WITNESS("removed the second"); \
+  if (pos < 0) WITNESS("name not in the chain"); \
+  WITNESS("end");
 /* TestPlugin::removePluginByName called on the head of a chain built with addPlugin: removes the named plugin
  * from the rest of the chain (the head itself cannot go: nobody could be told the new head) and returns it */
-#define PLUGIN_REMOVE(N) \
+#define PLUGIN_REMOVE(N, MODE, K) \
   h_init(); \
   IN_U32(tdis); IN_ARR_U8(tname, 2); \
-  tname[1] = 0; \
+  tname[1] = 0; if ((MODE) == 1) tname[0] = NAMES[(K) % (NP + 2)][0]; \
   for (uint32_t i = 0; i < (N); i++) { h_tp_add(i); model_install((int32_t)i); } \
   apply_enable_pattern(tdis, 0); \
   check_tp_chain(); \
+  light = (MODE) == 0; \
   int32_t id = name_to_id(tname); \
   int pos = id >= 0 ? model_find(id) : -1; \
+  if ((MODE) == 2) ASSUME(pos < 0); \
   ASSUME(pos != 0);                                                      /* not the plugin the call is made on */ \
   KF_EXCLUDE(pos); \
   int32_t removed = (int32_t)h_tp_remove(tname); \
   CHECK(removed == (pos > 0 ? id : NULLP), "removePluginByName returns the removed plugin, or null if no plugin has that name"); \
   if (pos > 0) model_remove_at((uint32_t)pos); \
   check_tp_chain(); \
-  h_tp_run_pre(); h_tp_run_post(); \
-  check_log(); \
+  if (!light) { h_tp_run_pre(); h_tp_run_post(); check_log(); } \
   OBSERVE(pos); OBSERVE(removed); \
   if (pos == 1) WITNESS("removed the second"); \
   if (pos < 0) WITNESS("name not in the chain"); \
   WITNESS("end");
-HARNESS(harness_plugin_remove_1) { PLUGIN_REMOVE(1) }
-HARNESS(harness_plugin_remove_2) { PLUGIN_REMOVE(2) }
-HARNESS(harness_plugin_remove_3) { PLUGIN_REMOVE(3) }
-HARNESS(harness_plugin_remove_4) { PLUGIN_REMOVE(4) }
-/* install / remove sequences: 3 steps over 3 plugins, each step installs a plugin that is not in the chain or
- * removes by a symbolic name; the order log of a test is checked after every step */
-HARNESS(harness_install_remove_sequence) {
-  h_init();
-  IN_ARR_U32(op, 3); IN_ARR_U32(arg, 3); IN_U32(sdis);
-  apply_enable_pattern(sdis & 7, 0);
-  for (uint32_t s = 0; s < 3; s++) {
-    int32_t id = (int32_t)(arg[s] % 3);
-    int pos = model_find(id);
-    if (op[s] & 1) {
-      ASSUME(pos < 0);                                                   /* installing a plugin twice is a usage error (it would make the chain cyclic) */
-      h_install((uint32_t)id); model_install(id);
-    } else {
-      KF_EXCLUDE(pos);
-      h_remove_by_name((uint8_t*)NAMES[id]);
-      if (pos >= 0) model_remove_at((uint32_t)pos);
-    }
-    check_registry_chain();
-    nlog = 0;
-    h_run_pre(); h_run_post();
-    check_log();
-  }
-  OBSERVE(model_n);
-  if (model_n == 3) WITNESS("three installs");
-  if (model_n == 0) WITNESS("ends empty");
+#define RR(N, MODE, K) HARNESS(harness_registry_remove_##N##_##MODE##_##K) { REGISTRY_REMOVE(N, MODE, K) }
+#define PR(N, MODE, K) HARNESS(harness_plugin_remove_##N##_##MODE##_##K) { PLUGIN_REMOVE(N, MODE, K) }
+/* the name of an installed plugin at chain position 0 or 1 (K = N-1, N-2) */
+RR(1, 1, 0) RR(2, 1, 1) RR(2, 1, 0) RR(3, 1, 2) RR(3, 1, 1) RR(4, 1, 3) RR(4, 1, 2)
+PR(2, 1, 0) PR(3, 1, 1) PR(4, 1, 2)
+/* a name nobody in the chain has: a plugin that is not installed, "z", the empty name */
+RR(0, 1, 0) RR(2, 1, 3) RR(4, 1, 4) RR(4, 1, 5) RR(3, 1, 4)
+PR(0, 1, 0) PR(1, 1, 3) PR(4, 1, 4) PR(4, 1, 5)
+/* any name at all, structural checks */
+RR(1, 0, 0) RR(2, 0, 0) RR(3, 0, 0) RR(4, 0, 0)
+PR(1, 0, 0) PR(2, 0, 0) PR(3, 0, 0) PR(4, 0, 0)
+/* any name at all / any absent name, all checks (thorough tier) */
+RR(2, 3, 0) RR(3, 3, 0) RR(4, 3, 0) RR(4, 2, 0)
+PR(2, 3, 0) PR(3, 3, 0) PR(4, 3, 0) PR(4, 2, 0)
+
+/* install / remove sequences over 3 plugins, 4 steps; step code 0..2 = install that plugin (it is not in the chain),
+ * 3..5 = removePluginByName of plugin code-3 (in the chain or not); the order log of a test is checked after every step */
+#define SEQUENCE(S0, S1, S2, S3) \
+  h_init(); \
+  IN_U32(sdis); \
+  const uint32_t steps[4] = {S0, S1, S2, S3}; \
+  apply_enable_pattern(sdis & 7, 0); \
+  for (uint32_t s = 0; s < 4; s++) { \
+    int32_t id = (int32_t)(steps[s] % 3); \
+    int pos = model_find(id); \
+    if (steps[s] < 3) { \
+      ASSUME(pos < 0);                                                   /* installing a plugin twice is a usage error (cyclic chain) */ \
+      h_install((uint32_t)id); model_install(id); \
+    } else { \
+      KF_EXCLUDE(pos); \
+      h_remove_by_name((uint8_t*)NAMES[id]); \
+      if (pos >= 0) model_remove_at((uint32_t)pos); \
+    } \
+    check_registry_chain(); \
+    nlog = 0; \
+    h_run_pre(); h_run_post(); \
+    check_log(); \
+  } \
+  OBSERVE(model_n); OBSERVE(nlog); \
   WITNESS("end");
-}
+#define SQ(S0, S1, S2, S3) HARNESS(harness_sequence_##S0##S1##S2##S3) { SEQUENCE(S0, S1, S2, S3) }
+SQ(0, 1, 3, 0)   /* a b -a +a : reinstall a plugin that was removed from the middle */
+SQ(0, 1, 4, 1)   /* a b -b +b : reinstall the removed head */
+SQ(0, 3, 0, 1)   /* a -a +a b */
+SQ(0, 1, 2, 5)   /* a b c -c */
+SQ(0, 1, 2, 4)   /* a b c -b */
+SQ(3, 0, 4, 3)   /* -a(empty chain) a -b(absent) -a */
+SQ(0, 1, 4, 3)   /* a b -b -a : down to the empty chain */
+SQ(2, 1, 5, 0)   /* c b -c a */
 
 /* ---- demonstrations of the known finding (NOT listed in spec.py: they are expected to FAIL) */
 HARNESS(harness_finding_registry_remove_depth3) {
